@@ -133,3 +133,15 @@ func sortObjectList(list *gofakes3.ObjectList) {
 		return list.CommonPrefixes[i].Prefix < list.CommonPrefixes[j].Prefix
 	})
 }
+
+// keyInsideBucket reports whether an object key, taken as a relative path,
+// names exactly one location strictly inside its bucket directory. Keys with
+// '.', '..' or empty segments do not: "../other/key" would address another
+// bucket, "." the bucket directory itself. The fs backends refuse such keys.
+func keyInsideBucket(key string) bool {
+	return key != "" && path.Clean("/"+key) == "/"+key
+}
+
+func errKeyNotInsideBucket(key string) error {
+	return gofakes3.ErrorInvalidArgument("key", key, "this backend maps keys to file paths: '.', '..' and empty path segments are not supported")
+}
